@@ -15,7 +15,7 @@ func init() {
 	register("C15", &propDef{
 		Title:           "Unpack materialises exactly what a well-formed archive says",
 		ConfigSensitive: true,
-		Rules: []func(*Checker){ruleGate("C15.gate"), ruleBodyAlwaysCopied("C15.bodycopied"), ruleC15Deferred, ruleC15Truncate, ruleMaterialise("C15.materialise"), ruleRestore("C15.restore"), ruleMeta("C15.meta"), ruleC01NoFollowAs("C15.lastwins"), ruleC15XHeader, ruleC15Retry, ruleLinkRestore("C15.linkrestore"), ruleRestoreOrderKept("C15.stableorder"), aliasRule(ruleC01Replace, "C01.replace", "C15.replace", 1),
+		Rules: []func(*Checker){ruleGate("C15.gate"), ruleBodyAlwaysCopied("C15.bodycopied"), ruleBodyWrittenPlainly("C15.plaincopy"), ruleC15Deferred, ruleC15Truncate, ruleMaterialise("C15.materialise"), ruleRestore("C15.restore"), ruleMeta("C15.meta"), ruleC01NoFollowAs("C15.lastwins"), ruleC15XHeader, ruleC15Retry, ruleLinkRestore("C15.linkrestore"), ruleRestoreOrderKept("C15.stableorder"), aliasRule(ruleC01Replace, "C01.replace", "C15.replace", 1),
 			aliasRuleFiltered(ruleC02LinkTarget, "C02.linktarget", "C15.linktarget", 1, func(o Oblig) bool { return strings.Contains(o.Key, "Unpack") }),
 			func(c *Checker) {
 				unpackHelpers = map[string]bool{}
@@ -48,7 +48,7 @@ func init() {
 			ruleAcceptedLinkIsCreated("C02.created"),
 			// each entry's header is written by the callback invocation that made it: a header kept for later (directories
 			// held back until something below them is packed) is lost when nothing comes to release it
-			ruleFreshHeaderPerEntry("C02.ownheader"), ruleNoNameLengthLimit("C02.namelength"), ruleClassifierKeepsKnownKinds("C02.special"),
+			ruleFreshHeaderPerEntry("C02.ownheader"), ruleNoNameLengthLimit("C02.namelength"), ruleClassifierKeepsKnownKinds("C02.special"), ruleBodyWrittenPlainly("C02.plaincopy"),
 			aliasRuleFiltered(ruleC01Walk, "C01.walk", "C02.walked", 1, func(o Oblig) bool { return strings.Contains(o.Key, "walked path") }),
 			// the name test refuses what climbs out of the destination and nothing else: a test on the first bytes
 			// instead of the first segment refuses the names ..data and ..2024 that Pack writes
